@@ -88,21 +88,21 @@ Definition probe_check (p : params) (s : s5) (tok : Z) (log : list cb) : bool :=
 
 (* a release interrupted by a raising callback: the calls made, one after the
    other, each taken from the oldest group that still owes something; the
-   raising call is the last; what was not called stays owed, in order *)
+   raising (or disabling) call is the last; what was not called stays owed, in order *)
 Fixpoint otake (c : cb) (gs : list (list cb)) : option (list (list cb)) :=
   match gs with
   | [] => None
   | [] :: gs => otake c gs
   | g :: gs => match remove1 cb_eqb c g with Some g' => Some (g' :: gs) | None => None end
   end.
-Fixpoint owed_raise (gs : list (list cb)) (lc : list cb) : option (list (list cb)) :=
+Fixpoint owed_raise (h : Z -> bool) (gs : list (list cb)) (lc : list cb) : option (list (list cb)) :=
   match lc with
   | [] => None
   | c :: lc' =>
       match otake c gs with
       | None => None
-      | Some gs' => if raises (c_i c) then (if nil_b lc' then Some gs' else None)
-                    else owed_raise gs' lc'
+      | Some gs' => if h (c_i c) then (if nil_b lc' then Some gs' else None)
+                    else owed_raise h gs' lc'
       end
   end.
 
@@ -114,7 +114,8 @@ Definition lc_check (p : params) (s : s5) (owed : list (list cb)) (o : op) (ob :
   match o with
   | SetEnabled true =>
       let ow := if en s then owed else owed ++ [n] in
-      if o_exc ob =? 3 then owed_raise ow lc          (* a callback raised: the rest stays owed *)
+      if o_exc ob =? 3 then owed_raise raises ow lc   (* a callback raised: the rest stays owed *)
+      else if o_exc ob =? 4 then owed_raise disables ow lc   (* ... or disabled dispatching again *)
       else if match_groups lc ow then Some [] else None
   | Clear =>
       (* clear() leaves dispatching enabled with an empty queue: whatever is owed is due now *)
